@@ -37,7 +37,7 @@ static bool model_empty(const BA& b) { bool e = true; for (unsigned u = 0; u < U
 
 extern "C" int harness(void) {
 #if MODE == 0
-  static_assert(sizeof(BA) == UNITS, "one bit per index, packed");
+  vassert(sizeof(BA) == UNITS, 2010);                            // one bit per index, packed (an ordinary assertion: a wrong size must be reported, not fail to compile)
   { BA fresh; vassert(fresh.empty() && padding_clear(fresh) && model_empty(fresh), 2000); }   // base case
   BA b; nondet_fill(&b, sizeof b); vassume(padding_clear(b));
   BA o; nondet_fill(&o, sizeof o); vassume(padding_clear(o));
